@@ -198,6 +198,9 @@ def real_grammar_spec(rng, variant, want_pair=None, seen=None, roots_mode=None):
         'kind': 'real', 'lang': lang, 'variant': variant, 'seen': seen, 'unary': 'shipped',
         'categories': inv, 'roots': list(JA_ROOTS if lang == 'ja' else EN_ROOTS),
         'roots_mode': roots_mode or rng.choice(['cli', 'derivable', 'derivable', 'derivable', 'derivable']),
+        # three worlds in four hand depccg a memoising wrapper of the real rule function (a user may), one in
+        # four the bare functools.partial exactly as the CLI builds it
+        'memo': rng.random() < 0.75,
     }
 
 
@@ -337,6 +340,14 @@ def make_world(seed, index, family=None, n_sentences=None, max_len=6, rich_token
     n_sentences = n_sentences or rng.randint(3, 8)
     sentences = []
     derivable = []
+    dense = False
+    if spec['kind'] == 'real':
+        # tags such as conj or punctuation combine with everything (Y -> Y\Y, absorption): the chart gets dense,
+        # every pop asks the (slow, Python) rule functions about dozens of new pairs.  Such worlds get short sentences.
+        hits = sum(1 for a in cats for b in cats if memo.binary(a, b))
+        dense = hits > 0.35 * T * T
+        if dense:
+            max_len = min(max_len, 5)
     pool = derivable_pool(rng, cats, memo, max_len)
     root_set = set(g['roots'])
     for sid in range(n_sentences):
@@ -367,4 +378,4 @@ def make_world(seed, index, family=None, n_sentences=None, max_len=6, rich_token
         extra = list(dict.fromkeys(derivable))
         rng.shuffle(extra)
         spec['roots'] = list(dict.fromkeys(spec['roots'] + extra[:rng.randint(1, 2)]))
-    return {'family': family, 'grammar': spec, 'sentences': sentences}
+    return {'family': family, 'grammar': spec, 'sentences': sentences, 'dense_lexicon': dense}
